@@ -66,11 +66,38 @@ def patPrefix (p : List (PatElem Bytes)) : Bytes := if startsOnNewLine p then [1
 def elemLevel (L : Nat) (p : List (PatElem Bytes)) : Nat := if isMultiline p then L + 1 else L
 
 mutual
+/-- the text `serialize_inline_expression` writes at indent level `L`: `inlineBytes`, except that a select
+expression inside a nested placeable (directly, or inside call arguments) is written over several lines — its
+variants at level `L + 1`, and whatever follows it after `4·L` spaces -/
+def inlineText (L : Nat) : Inline Bytes → Bytes
+  | .str v => 34 :: (v ++ [34])
+  | .num v => v
+  | .var id => 36 :: id
+  | .msg id attr => id ++ attrBytes attr
+  | .term id attr none => 45 :: (id ++ attrBytes attr)
+  | .term id attr (some (pos, named)) =>
+    45 :: (id ++ attrBytes attr ++ 40 :: posText L pos named.isEmpty (namedText L named))
+  | .fn id pos named => id ++ 40 :: posText L pos named.isEmpty (namedText L named)
+  | .placeable e => 123 :: (innerText L e ++ [125])
+/-- positional arguments from the start of one of them, then the named ones, then `)` -/
+def posText (L : Nat) : List (Inline Bytes) → (noNamed : Bool) → (namedText : Bytes) → Bytes
+  | [], _, nt => nt
+  | x :: xs, nn, nt => inlineText L x ++ (if xs.isEmpty && nn then [] else [44, 32]) ++ posText L xs nn nt
+/-- named arguments from the start of one of them, then `)` -/
+def namedText (L : Nat) : List (Bytes × Inline Bytes) → Bytes
+  | [] => [41]
+  | (n, v) :: xs => n ++ [58, 32] ++ inlineText L v ++ (if xs.isEmpty then [] else [44, 32]) ++ namedText L xs
+/-- what `serialize_expression` writes at level `L`; for a select expression this includes the `4·L` spaces
+that the writer puts in front of whatever is written next (the closing brace) -/
+def innerText (L : Nat) : Expr Bytes → Bytes
+  | .inline i => inlineText L i
+  | .select sel vs => inlineText L sel ++ [32, 45, 62, 10] ++ variantsText (L + 1) vs ++ spacesL (4 * L)
 /-- text of a placeable element written at indent level `L` (without the indentation in front of it) -/
 def exprText (L : Nat) : Expr Bytes → Bytes
-  | .inline i => elemBytes (.placeable (.inline i))
+  | .inline (.placeable e) => 123 :: 123 :: 32 :: (innerText L e ++ [32, 125, 125])
+  | .inline i => 123 :: 32 :: (inlineText L i ++ [32, 125])
   | .select sel vs =>
-    123 :: 32 :: (inlineBytes sel ++ [32, 45, 62, 10] ++ variantsText (L + 1) vs ++ spacesL (4 * L) ++ [125])
+    123 :: 32 :: (inlineText L sel ++ [32, 45, 62, 10] ++ variantsText (L + 1) vs ++ spacesL (4 * L) ++ [125])
 def variantsText (L : Nat) : List (Variant Bytes) → Bytes
   | [] => []
   | v :: vs => variantText L v ++ 10 :: variantsText L vs
@@ -88,6 +115,72 @@ end
 /-- what `serialize_pattern` writes at indent level `L` -/
 def patText (L : Nat) (p : List (PatElem Bytes)) : Bytes :=
   patPrefix p ++ elemsText (elemLevel L p) (startsOnNewLine p) p
+
+/-! ## on select-free inline expressions the level-indexed text is `inlineBytes` -/
+
+mutual
+theorem inlineText_valid (L : Nat) (e : Inline Bytes) (hv : validInline e = true) : inlineText L e = inlineBytes e := by
+  cases e with
+  | str v => simp [inlineText, inlineBytes]
+  | num v => simp [inlineText, inlineBytes]
+  | var v => simp [inlineText, inlineBytes]
+  | msg a b => simp [inlineText, inlineBytes]
+  | term id attr args =>
+    cases args with
+    | none => simp [inlineText, inlineBytes]
+    | some pn =>
+      obtain ⟨pos, named⟩ := pn
+      simp only [validInline, Bool.and_eq_true] at hv
+      simp only [inlineText, inlineBytes]
+      rw [namedText_valid L named hv.1.2, posText_valid L pos hv.1.1.2]
+  | fn id pos named =>
+    simp only [validInline, Bool.and_eq_true] at hv
+    simp only [inlineText, inlineBytes]
+    rw [namedText_valid L named hv.1.2, posText_valid L pos hv.1.1.2]
+  | placeable e =>
+    cases e with
+    | select a b => simp [validInline, validInner] at hv
+    | inline i =>
+      have := inlineText_valid L i (validInner_inline (by simpa [validInline] using hv))
+      simp [inlineText, innerText, inlineBytes, innerBytes, this]
+theorem posText_valid (L : Nat) (xs : List (Inline Bytes)) (hv : validInl xs = true) (nn : Bool) (nt : Bytes) :
+    posText L xs nn nt = posTail xs nn nt := by
+  cases xs with
+  | nil => simp [posText, posTail]
+  | cons x xs =>
+    simp only [validInl, Bool.and_eq_true] at hv
+    rw [posText, posTail, inlineText_valid L x hv.1, posText_valid L xs hv.2]
+theorem namedText_valid (L : Nat) (named : List (Bytes × Inline Bytes)) (hv : validNamed named = true) :
+    namedText L named = namedTail named := by
+  cases named with
+  | nil => simp [namedText, namedTail]
+  | cons x xs =>
+    obtain ⟨n, v⟩ := x
+    simp only [validNamed, Bool.and_eq_true] at hv
+    rw [namedText, namedTail, inlineText_valid L v hv.1.2, namedText_valid L xs hv.2]
+end
+
+/-- a valid inline placeable element (`{ i }`, `{{ i }}`) is written the same at every level -/
+theorem exprText_inline_valid (L : Nat) (i : Inline Bytes) (hv : validInner (.inline i) = true) :
+    exprText L (.inline i) = elemBytes (.placeable (.inline i)) := by
+  have hi := inlineText_valid L i (validInner_inline hv)
+  cases i with
+  | placeable e2 =>
+    cases e2 with
+    | select a b =>
+      have : validInner (.inline (.placeable (.select a b))) = validInline (.placeable (.select a b)) := rfl
+      rw [this] at hv
+      simp [validInline, validInner] at hv
+    | inline j =>
+      simp only [inlineText, innerText, inlineBytes, innerBytes, List.cons.injEq, true_and,
+        List.append_cancel_right_eq] at hi
+      simp [exprText, innerText, elemBytes, innerBytes, hi]
+  | str v => simp [exprText, elemBytes, hi]
+  | num v => simp [exprText, elemBytes, hi]
+  | var v => simp [exprText, elemBytes, hi]
+  | msg a b => simp [exprText, elemBytes, hi]
+  | term a b c => simp [exprText, elemBytes, hi]
+  | fn a b c => simp [exprText, elemBytes, hi]
 
 /-! ## the class of patterns -/
 
